@@ -156,8 +156,8 @@ impl Prop for Pair {
             }
             cx.nt("operands_carry_offsets");
             let r = catch(|| {
-                let a = mk_dt_off(c.a.i(), c.oa);
-                let b = mk_dt_off(c.b.i(), c.ob);
+                let a = mk_dt_off_any(c.a.i(), c.oa);
+                let b = mk_dt_off_any(c.b.i(), c.ob);
                 (a.months_since(&b), a.years_since(&b), b.months_since(&a), b.years_since(&a))
             });
             match r {
